@@ -2,6 +2,7 @@ import Hoot.Props.C05
 import Hoot.Props.C07
 import Hoot.Props.C08
 import Hoot.Proofs.ExchangeSend
+import Hoot.Proofs.RespLoc
 set_option linter.unusedVariables false
 set_option linter.unusedSimpArgs false
 
@@ -215,6 +216,22 @@ def recvRun (hack : Bool) (stream : Bytes) (f : Flow) (sched : List IoStep) : Fl
 def Head.parsed (h : Head) : RespHead :=
   { version := h.ver, status := h.codeVal, fields := fieldsOf (h.fields.map Field.pair) }
 
+/-- a window of `m` unconsumed bytes, on a stream that starts with head `H`, which the partial-redirect
+    fallback (finding D10) cannot misread: the fallback is absent, or the window holds the whole head, or the
+    head is not a 3xx carrying `Location`, or the window ends before the end of the first `Location` line.
+    (The property itself assigns the remaining windows — inside a 3xx head after a complete Location line —
+    to C05.) -/
+def Head.safeWin (H : Head) (hack : Bool) (m : Nat) : Prop :=
+  hack = false ∨ H.enc.length ≤ m ∨
+  (¬ (300 ≤ H.codeVal ∧ H.codeVal ≤ 399) ∨
+    (fieldsOf (H.fields.map Field.pair)).any (fun x => x.name == "location") = false) ∨
+  (∃ (pre : List Field) (f : Field) (post : List Field), H.fields = pre ++ f :: post ∧
+    (fieldsOf (pre.map Field.pair)).any (fun x => x.name == "location") = false ∧
+    m < H.statusLine.length + (encFields pre).length + f.enc.length)
+
+theorem Head.safeWin_full (H : Head) (hack : Bool) (m : Nat) (h : H.enc.length ≤ m) : H.safeWin hack m :=
+  Or.inr (Or.inl h)
+
 /-- the response message of the exchange: a well-formed head `H` (not 100, at most 128 fields, names within
     the `http` crate's limit), whose framing for a request with method `m` — as the code computes it — is `b0` -/
 structure RespOk (hack : Bool) (H : Head) (b0 : BPos) (m : Method) : Prop where
@@ -223,8 +240,6 @@ structure RespOk (hack : Bool) (H : Head) (b0 : BPos) (m : Method) : Prop where
   hc : 100 ≤ H.codeVal
   h100 : H.codeVal ≠ 100
   hn : H.namesShort
-  hsafe : hack = true → (¬ (300 ≤ H.codeVal ∧ H.codeVal ≤ 399) ∨
-            (fieldsOf (H.fields.map Field.pair)).any (fun x => x.name == "location") = false)
   hb : b0.good
   hframe : forResponse (H.ver == 0) m H.codeVal (fieldsOf (H.fields.map Field.pair)) = .ok b0.reader
 
@@ -251,10 +266,16 @@ def RecvInv (H : Head) (b0 : BPos) (tail : Bytes) (f0 : Flow) (f : Flow) (o : Re
    (f.st = terminalSt H ∧ o.consumed = H.enc.length + b0.enc.length ∧ o.head = some H.parsed ∧ o.body = b0.payload))
 
 theorem call_head_prefix (hack : Bool) (H : Head) (b0 : BPos) (f0 : Flow) (S : RecvSetup hack H b0 f0) (c : CallSt)
-    (n : Nat) (hlt : n < H.enc.length) : callTryResponse hack c (H.enc.take n) = (c, .ok none) := by
-  cases hack with
-  | false => exact C05_call_prefix_nohack c H S.resp.hw S.resp.hs n hlt
-  | true => exact C05_call_prefix_partial c H S.resp.hw S.resp.hs S.resp.hc S.resp.hn (S.resp.hsafe rfl) n hlt
+    (n : Nat) (hlt : n < H.enc.length) (hsw : H.safeWin hack n) : callTryResponse hack c (H.enc.take n) = (c, .ok none) := by
+  rcases hsw with rfl | hfull | hnot | ⟨pre, f, post, hsplit, hnoloc, hn⟩
+  · exact C05_call_prefix_nohack c H S.resp.hw S.resp.hs n hlt
+  · omega
+  · cases hack with
+    | false => exact C05_call_prefix_nohack c H S.resp.hw S.resp.hs n hlt
+    | true => exact C05_call_prefix_partial c H S.resp.hw S.resp.hs S.resp.hc S.resp.hn hnot n hlt
+  · cases hack with
+    | false => exact C05_call_prefix_nohack c H S.resp.hw S.resp.hs n hlt
+    | true => exact call_prefix_before_location c H S.resp.hw S.resp.hs S.resp.hc S.resp.hn pre f post hsplit hnoloc n hn
 
 theorem call_head_full (hack : Bool) (H : Head) (b0 : BPos) (f0 : Flow) (S : RecvSetup hack H b0 f0) (rest : Bytes) :
     callTryResponse hack f0.call (H.enc ++ rest) =
@@ -307,7 +328,7 @@ theorem flow_step_body (hack : Bool) (f : Flow) (op : Op) (h : f.st = .recvBody)
     f.step hack op = stepRecvBody f op := by unfold Flow.step; simp [h]
 
 theorem recvStep_head_prefix (hack : Bool) (H : Head) (b0 : BPos) (tail : Bytes) (f0 : Flow) (S : RecvSetup hack H b0 f0)
-    (s : IoStep) (hm : s.m < H.enc.length) :
+    (s : IoStep) (hm : s.m < H.enc.length) (hsw : H.safeWin hack s.m) :
     recvStep hack (H.enc ++ b0.enc ++ tail) (f0, {}) s = (f0, {}) := by
   unfold recvStep
   simp only [S.hst]
@@ -318,7 +339,7 @@ theorem recvStep_head_prefix (hack : Bool) (H : Head) (b0 : BPos) (tail : Bytes)
   rw [hw]
   have : stepRecvResponse hack f0 (.resp (H.enc.take s.m)) = (f0, .resp 0 none) := by
     unfold stepRecvResponse
-    simp [S.hh, call_head_prefix hack H b0 f0 S f0.call s.m hm]
+    simp [S.hh, call_head_prefix hack H b0 f0 S f0.call s.m hm hsw]
     have := S.hh
     cases f0; simp_all
   rw [this]
@@ -413,14 +434,14 @@ theorem recvStep_body (hack : Bool) (stream : Bytes) (f : Flow) (o : RecvObs) (b
     · rw [flow_step_body hack f1 _ h1st]; unfold stepRecvBody; simp [hcan, h1s]
 
 theorem recv_step_inv (hack : Bool) (H : Head) (b0 : BPos) (tail : Bytes) (f0 : Flow) (S : RecvSetup hack H b0 f0)
-    (f : Flow) (o : RecvObs) (s : IoStep) (h : RecvInv H b0 tail f0 f o) :
+    (f : Flow) (o : RecvObs) (s : IoStep) (h : RecvInv H b0 tail f0 f o) (hsw : H.safeWin hack s.m) :
     RecvInv H b0 tail f0 (recvStep hack (H.enc ++ b0.enc ++ tail) (f, o) s).1
       (recvStep hack (H.enc ++ b0.enc ++ tail) (f, o) s).2 := by
   obtain ⟨htail, hf0, hA | hB | hC⟩ := h
   · -- head not yet returned
     obtain ⟨rfl, rfl⟩ := hA
     by_cases hm : s.m < H.enc.length
-    · rw [recvStep_head_prefix hack H b0 tail f S s hm]
+    · rw [recvStep_head_prefix hack H b0 tail f S s hm hsw]
       exact ⟨htail, rfl, Or.inl ⟨rfl, rfl⟩⟩
     · obtain ⟨f2, hstep, h2s, h2r, hcase⟩ := recvStep_head_full hack H b0 tail f S s (by omega)
       rw [hstep]
@@ -466,20 +487,20 @@ theorem recv_step_inv (hack : Bool) (H : Head) (b0 : BPos) (tail : Bytes) (f0 : 
     exact ⟨htail, hf0, Or.inr (Or.inr ⟨hst, h1, h2, h3⟩)⟩
 
 theorem recv_run_inv (hack : Bool) (H : Head) (b0 : BPos) (tail : Bytes) (f0 : Flow) (S : RecvSetup hack H b0 f0)
-    (htail : b0.isClose = true → tail = []) (sched : List IoStep) :
+    (htail : b0.isClose = true → tail = []) (sched : List IoStep) (hσ : ∀ s ∈ sched, H.safeWin hack s.m) :
     RecvInv H b0 tail f0 (recvRun hack (H.enc ++ b0.enc ++ tail) f0 sched).1 (recvRun hack (H.enc ++ b0.enc ++ tail) f0 sched).2 := by
   unfold recvRun
-  have gen : ∀ (sched : List IoStep) (x : Flow × RecvObs), RecvInv H b0 tail f0 x.1 x.2 →
+  have gen : ∀ (sched : List IoStep), (∀ s ∈ sched, H.safeWin hack s.m) → ∀ (x : Flow × RecvObs), RecvInv H b0 tail f0 x.1 x.2 →
       RecvInv H b0 tail f0 (sched.foldl (recvStep hack (H.enc ++ b0.enc ++ tail)) x).1
         (sched.foldl (recvStep hack (H.enc ++ b0.enc ++ tail)) x).2 := by
     intro sched
     induction sched with
-    | nil => intro x hx; exact hx
+    | nil => intro _ x hx; exact hx
     | cons s rest ih =>
-      intro x hx
+      intro hσ x hx
       rw [List.foldl_cons]
-      exact ih _ (recv_step_inv hack H b0 tail f0 S x.1 x.2 s hx)
-  exact gen sched (f0, {}) ⟨htail, rfl, Or.inl ⟨rfl, rfl⟩⟩
+      exact ih (fun t ht => hσ t (by simp [ht])) _ (recv_step_inv hack H b0 tail f0 S x.1 x.2 s hx (hσ s (by simp)))
+  exact gen sched hσ (f0, {}) ⟨htail, rfl, Or.inl ⟨rfl, rfl⟩⟩
 
 /-- the receive side is complete when the flow has left the two receive states -/
 def recvDone (f : Flow) : Bool := f.st == .redirect || f.st == .cleanup
@@ -585,7 +606,7 @@ theorem recv_live_aux (hack : Bool) (H : Head) (b0 : BPos) (tail : Bytes) (f0 : 
       | cons s rest =>
         rw [List.foldl_cons]
         have hs := hfull s (by simp)
-        have hinv := recv_step_inv hack H b0 tail f0 S f o s hx
+        have hinv := recv_step_inv hack H b0 tail f0 S f o s hx (H.safeWin_full hack s.m (by have := hs.1; omega))
         refine ih _ hinv ?_ rest (fun t ht => hfull t (by simp [ht])) (by simp at hlen; omega)
         rcases recv_step_progress hack H b0 tail f0 S f o s hx hs.1 hs.2 with hd | hlt
         · exact Or.inl hd
